@@ -412,6 +412,34 @@ def rlimit_sweep():
         sc = {"prop": "C08", "lines": lines, "externals": [], "faults": {}, "files": {}, "config": "rlimit_builtin_sweep",
               "adversarial_picks": 0}
         out.append(plines.LineRunner.rebuild(sc))
+    # the pipe() of a here-string failing for a stage in first / last / middle position of a pipeline, and inside
+    # substitutions (stage pipes and capture pipes exist by then and have to be handed back)
+    def hs():
+        return [{"k": "hs", "word": "abcde", "size": 5}]
+    def src(n):
+        return pup(n, {"t": "source", "n": 10, "seed": 5, "chunk": 65536, "on_epipe": "exit", "code": 0})
+    def snk(n, redirs=None):
+        return pup(n, {"t": "sink", "rchunk": 65536, "code": 0}, redirs)
+    prb = {"stages": [pup("prb", {"t": "ignorer", "code": 0}, args=["$?"])], "probe": True}
+    shapes = [
+        ([snk("a", hs()), snk("b")], None, 2),
+        ([src("a"), snk("b", hs())], None, 2),
+        ([src("a"), snk("b", hs()), snk("c")], None, 3),
+        (None, [snk("i", hs())], 3),
+        (None, [src("i0"), snk("i1", hs())], 4),
+        (None, [snk("i0", hs()), snk("i1")], 4),
+    ]
+    for stages, inner, k in shapes:
+        if stages is not None:
+            line = {"stages": stages, "probe": False}
+        else:
+            sub = "$(%s)" % " | ".join(plines.render_stage(x) for x in inner)
+            outer = [pup("o", {"t": "ignorer", "code": 0}, args=["w" + sub])]
+            line = {"groups": [{"stages": inner, "capture": True}, {"stages": outer, "capture": False}],
+                    "stages": outer, "probe": False}
+        sc = {"prop": "C08", "lines": [line, dict(prb)], "externals": [], "faults": {"pipe": [k, 24]}, "files": {},
+              "config": "explicit_hs_pipe_fault", "adversarial_picks": 20}
+        out.append(plines.LineRunner.rebuild(sc))
     # `source` starting a program, plainly and inside both substitution spellings and an assignment
     for form in range(4):
         lines = [source_line(form, 0), {"stages": [pup("prb", {"t": "ignorer", "code": 0}, args=["$?"])], "probe": True}]
